@@ -320,7 +320,8 @@ fn env_gen(m: &HashMap<String, String>) {
         let env_seed: u64 = rng.gen_range(0..1_000_000);
         let h = EnvHeader { id: format!("{}{}-{}-{}", kind, profile, seed, hi), profile: profile.clone(), kind: kind.clone(),
             seed: env_seed, t0, ticks: tks.clone(), step, trading, levels: l };
-        let np = if rng.gen::<f64>() < 0.3 { 6 } else { 3 };
+        // a wide window now and then, so that all ten published levels (and the level scan's far end) hold different amounts
+        let np = { let u = rng.gen::<f64>(); if u < 0.12 { 12 } else if u < 0.4 { 6 } else { 3 } };
         let base = rng.gen_range(1..20);
         let vols = if profile == "unusual" { vec![0, 0, 1, 2, 3, 5] }
                    else if (profile == "py" || profile == "npy") && rng.gen::<f64>() < 0.3 { vec![0, 0, 1, 2, 5] }
